@@ -72,6 +72,7 @@ func main() {
 	statusDesign := fl.Bool("status-design", false, "one response per final HTTP status code, named by net/http or not (C05, C07)")
 	soloDesign := fl.Bool("solo-design", false, "methods with exactly one payload attribute: type x presence x validation x location (C01)")
 	multipartDesign := fl.Bool("multipart-design", false, "multipart requests with one parameter or header of every kind (C01; generated and compiled only)")
+	twinDesign := fl.Bool("twin-design", false, "two services whose only method has the same name and a different body (C14)")
 	mapkeyDesign := fl.Bool("mapkey-design", false, "every primitive as a map key, in request body / response body / query string (C01)")
 	loose := fl.Bool("loose-defaults", false, "with -matrix-design: collection defaults given as []any / map[string]any")
 	matrixDesign := fl.Bool("matrix-design", false, "the systematic transport table: primitive x location x required/optional/default (C02-C04)")
@@ -117,6 +118,12 @@ func main() {
 		}
 		if *multipartDesign {
 			d := design.GenerateMultipart(lp.NewRng(*seed*1000003+uint64(*index)+47), *index)
+			b, _ := json.Marshal(d)
+			fmt.Println(string(b))
+			return
+		}
+		if *twinDesign {
+			d := design.GenerateTwin(lp.NewRng(*seed*1000003+uint64(*index)+53), *index)
 			b, _ := json.Marshal(d)
 			fmt.Println(string(b))
 			return
